@@ -355,6 +355,9 @@ structure FeedSt where
   seen : Bytes := []          -- bytes handed to the upgraded handler
   status : Status := .eof
   stopped : Bool := false
+  /-- bytes `handle` left unread in the caller's per-step reader when it returned after an
+      upgrade; the documented loop feeds only the returned tail again, so these are lost -/
+  dropped : Bytes := []
 deriving Repr, DecidableEq
 
 /-- one round: prepend the unprocessed tail, call `handle`.  The upgraded
@@ -372,7 +375,8 @@ def feedStep (c : Consts) (svc : Service) (dec : Bytes → Frame) (cap : Nat)
     | .err => { st with out := out, tail := [], status := .err, stopped := true }
     | .eof => { st with out := out, tail := h.tail, status := .eof }
     | .upgraded i =>
-      { st with out := out, tail := h.tail ++ h.rest.flatten, iface := some i, status := .upgraded i }
+      { st with out := out, tail := h.tail, dropped := st.dropped ++ h.rest.flatten,
+                iface := some i, status := .upgraded i }
 
 def feed (c : Consts) (svc : Service) (dec : Bytes → Frame) (cap : Nat) (chunks : List Bytes) : FeedSt :=
   chunks.foldl (feedStep c svc dec cap) {}
